@@ -48,12 +48,38 @@ package blockwise
 //@   requires contract.EncodeBlockOption(szx, n, m, v2, e2)
 //@   ensures [enc-of-dec] e2 == nil && v2 == v
 //
-// Assumed contract (block-wise reassembly is not under contract; it may run arbitrary handlers):
+// Handle (entry point for every received message; it may run arbitrary handlers, so no frame is claimed):
+// it never gives a message back to the pool itself - in particular not the message remembered for a
+// transfer that is being sent, which for an upload started by Do is the CALLER's request (seed C12c-1
+// released it on the error path) - and a continuation that fails forgets the transfer.
 //
-//@ func (*BlockWise) Handle(w *responsewriter.ResponseWriter, r *pool.Message, maxSZX SZX, maxMessageSize uint32, next func(*responsewriter.ResponseWriter, *pool.Message))
+//@ func (*BlockWise) handleReceivedMessage(w *responsewriter.ResponseWriter, r *pool.Message, maxSZX SZX, maxMessageSize uint32, next func(*responsewriter.ResponseWriter, *pool.Message)) (err error)
 //@   trusted
 //@   modifies anything
-//@   ensures w != nil ==> w.response == old(w.response)
+//
+//@ func (*BlockWise) continueSendingMessage(w *responsewriter.ResponseWriter, r *pool.Message, maxSZX SZX, maxMessageSize uint32, messageCode codes.Code) (more bool, err error)
+//@   trusted
+//@   modifies anything
+//
+//@ func (*BlockWise) sendEntityIncomplete(w *responsewriter.ResponseWriter, token message.Token)
+//@   trusted
+//@   modifies anything
+//
+//@ func (*BlockWise) getSendingMessageCode(token uint64) (c codes.Code, ok bool)
+//@   trusted
+//
+//@ func (*BlockWise) Handle(w *responsewriter.ResponseWriter, r *pool.Message, maxSZX SZX, maxMessageSize uint32, next func(*responsewriter.ResponseWriter, *pool.Message))
+//@   requires b != nil
+//@   assumes r != nil && maxSZX <= 7 && b.sendingMessagesCache != nil && b.sendingMessagesCache.Map != nil
+//@   modifies anything
+//@   opaque-calls pure
+//@   ensures [never-releases-a-message] notCalled(ReleaseMessage)
+//@   ensures [one-way-or-the-other] callCount(handleReceivedMessage) + callCount(continueSendingMessage) == 1
+//@   ensures [failed-continuation-forgets-the-transfer] called(continueSendingMessage) && callRes(continueSendingMessage, 0, 1) != nil ==> callCount(Delete) == 1 && notCalled(LoadAndDelete)
+//@   ensures [finished-response-forgotten] called(continueSendingMessage) && callRes(continueSendingMessage, 0, 1) == nil && !callRes(continueSendingMessage, 0, 0) && callRes(getSendingMessageCode, 0, 0) > 4 ==> callCount(Delete) == 1
+//@   ensures [running-transfer-kept] called(continueSendingMessage) && callRes(continueSendingMessage, 0, 1) == nil && (callRes(continueSendingMessage, 0, 0) || callRes(getSendingMessageCode, 0, 0) <= 4) ==> notCalled(Delete)
+//@   ensures [failed-reception-answered] called(handleReceivedMessage) && callRes(handleReceivedMessage, 0, 0) != nil ==> callCount(sendEntityIncomplete) == 1 && notCalled(Delete)
+//@   param next:
 //
 //@ immutable BlockWise.sendingMessagesCache
 //@ immutable BlockWise.receivingMessagesCache
